@@ -28,7 +28,7 @@ import (
 	"gopkg.in/yaml.v2"
 )
 
-var memfs = afero.NewMemMapFs()
+var memfs = hutil.NewStrictFs()
 
 // ---- abstract description
 
